@@ -498,6 +498,51 @@ Section Processor.
     Qed.
   End WithWallet.
 
+  (* the success path, fully determined: a held from, a wallet that signs, and (when no nonce is
+     supplied) a backend that reports a pending count *)
+  Theorem send_tx_exact rq id p0 rest tx f a :
+    rq_id rq = Some id -> rq_method rq = bs "eth_sendTransaction" -> rq_params rq = p0 :: rest ->
+    decode_transaction parse_int p0 = Ok tx -> tx_from tx = Some f -> dec_address f = Ok a ->
+    (* nonce supplied *)
+    (forall n raw,
+       tx_nonce tx = Some n -> sign_with a tx chain = Ok raw ->
+       exists resp err,
+         processRPC (Some rq) = Ok (Some resp, err, [raw_frame raw]) /\
+         (resp, err) = fst (SyncRequest (send_raw_request rq raw))) /\
+    (* nonce reported by the backend *)
+    (forall echo v n raw,
+       tx_nonce tx = None -> backend (count_frame a) = reply_result echo v -> v <> JNull ->
+       dec_hexint parse_int v = Ok n -> sign_with a (set_nonce tx (Some n)) chain = Ok raw ->
+       exists resp err,
+         processRPC (Some rq) = Ok (Some resp, err, [count_frame a; raw_frame raw]) /\
+         (resp, err) = fst (SyncRequest (send_raw_request rq raw))).
+  Proof.
+    intros Hi Hm Hp Hd Hf Ha. rewrite (processRPC_sendTx rq id Hi Hm). split.
+    - intros n raw En Hs. unfold Model.processEthSendTransaction. rewrite Hp.
+      cbn [length Nat.ltb Nat.leb index_list nth_error bind]. rewrite Hd, Hf, En.
+      unfold wallet_Sign. rewrite Hf, Ha. cbn [bind]. rewrite Hs.
+      pose proof (SyncRequest_frames backend (send_raw_request rq raw)) as Fr. unfold send_raw_request in *.
+      destruct (SyncRequest _) as [[res err] frames'] eqn:Esr. cbn [snd] in Fr. subst frames'.
+      exists res, err. split; reflexivity.
+    - intros echo v n raw En Hb Hv Hn Hs. unfold Model.processEthSendTransaction. rewrite Hp.
+      cbn [length Nat.ltb Nat.leb index_list nth_error bind]. rewrite Hd, Hf, En, Ha.
+      rewrite (CallRPC_result backend (bs "eth_getTransactionCount") [address_json a; JStr (bs "pending")] echo v Hb).
+      assert (Step : match wallet_Sign sign_with chain (set_nonce tx (Some n)) with
+                     | Ok raw0 => let '(res, err, frames') := SyncRequest (mkReq (rq_jsonrpc rq) (rq_id rq) (bs "eth_sendRawTransaction") [JStr (hex0x raw0)]) in
+                                  Ok (Some res, err, [count_frame a] ++ frames')
+                     | Err _ => Ok (Some (RPCErrorResponse (rq_id rq) RPCCodeInternalError), true, [count_frame a])
+                     | Panic => Panic
+                     end
+                     = (let '(res, err, _) := SyncRequest (send_raw_request rq raw) in
+                        Ok (Some res, err, [count_frame a; raw_frame raw]))).
+      { unfold wallet_Sign. cbn [tx_from set_nonce]. rewrite Hf, Ha. cbn [bind]. rewrite Hs.
+        pose proof (SyncRequest_frames backend (send_raw_request rq raw)) as Fr. unfold send_raw_request in *.
+        destruct (SyncRequest _) as [[res err] frames']. cbn [snd] in Fr. subst frames'. reflexivity. }
+      destruct (SyncRequest (send_raw_request rq raw)) as [[res err] fr] eqn:Esr.
+      exists res, err. split; [|reflexivity].
+      destruct v; try congruence; rewrite Hn; exact Step.
+  Qed.
+
   (* C09_accounts *)
   Theorem accounts_spec rq id :
     rq_id rq = Some id ->
